@@ -573,7 +573,7 @@ class Runner:
             for q in u.queries:
                 tasks.append((u, q, bool(q.witnesses), hints))
         est = max([t[1].est_gb for t in tasks] + [1])
-        workers = max(1, min(NCPU, int(MEM_BUDGET_GB // est), len(tasks)))
+        workers = max(1, min(NCPU, int(MEM_BUDGET_GB // est), len(tasks), int(os.environ.get('VERIF_WORKERS', '99') or 99)))
         self.say('[%s] %d cbmc queries (reachability witnesses are asserted in the same run and must fail), %d in parallel' % (
             self.prop, len(tasks), workers))
 
